@@ -159,3 +159,79 @@ def check_lc_subsamples(run, cat, L, mask=None, desc=None, key_prefix='lc-subsam
                 return run.violation(f'{key_prefix}-wrong-particle', dict(row=j, column=col, **desc))
     run.count('lc_slices_checked', len(rows))
     return False
+
+
+# ---------------------------------------------------------------------------------------------
+# in-situ contracts (icontract) on the real functions, evaluated on every call any workload makes
+
+
+class ContractBroken(Exception):
+    pass
+
+
+CONTRACT_EVALS = {'cumsum': 0, 'new_indices': 0, 'update_index_cols': 0}
+CONTRACT_FAILS = []
+
+
+def install_contracts():
+    """Attach postconditions to util.cumsum (as called by the loader), _compute_new_subsample_indices
+    and _update_subsample_index_cols.  Conditions record and return True (a raising contract would
+    abort the load it observes); failures are collected in CONTRACT_FAILS."""
+    import icontract
+
+    from abacusnbody import util
+    from abacusnbody.data import compaso_halo_catalog as chc
+
+    if getattr(chc, '_verif_contracts', False):
+        return
+    real_cumsum = util.cumsum
+
+    def cumsum_checked(arr, out, initial=False, final=True, offset=0):
+        a = np.asarray(arr).copy()
+        tot = real_cumsum(arr, out, initial=initial, final=final, offset=offset)
+        CONTRACT_EVALS['cumsum'] += 1
+        P = np.concatenate([[int(offset)], int(offset) + np.cumsum(a.astype(object))]) if len(a) else np.array([int(offset)], dtype=object)
+        exp = list(P[(0 if initial else 1) : (len(a) + 1 if final else len(a))]) if len(a) else ([P[0]] if (initial and final) else [])
+        if [int(x) for x in np.asarray(out)] != [int(x) for x in exp] or int(tot) != int(P[-1]):
+            CONTRACT_FAILS.append(dict(contract='cumsum', n=len(a), initial=bool(initial), final=bool(final), offset=int(offset), got=[int(x) for x in np.asarray(out)[:6]], expected=[int(x) for x in exp[:6]]))
+        return tot
+
+    class _UtilProxy:
+        def __getattr__(self, name):
+            return cumsum_checked if name == 'cumsum' else getattr(util, name)
+
+    chc.util = _UtilProxy()
+
+    def indices_ok(self, result, load_AB):
+        CONTRACT_EVALS['new_indices'] += 1
+        prev_end = 0
+        for AB in load_AB:
+            a = np.asarray(result[AB]).astype(np.int64)
+            ok = len(a) == len(self.halos) + 1 and (np.diff(a) >= 0).all() and a[0] == prev_end
+            if not ok:
+                CONTRACT_FAILS.append(dict(contract='_compute_new_subsample_indices', AB=AB, length=len(a), halos=len(self.halos), first=int(a[0]) if len(a) else None, expected_first=int(prev_end)))
+            prev_end = int(a[-1]) if len(a) else prev_end
+        return True
+
+    def cols_ok(self, npstartAB_new, load_AB):
+        CONTRACT_EVALS['update_index_cols'] += 1
+        for AB in load_AB:
+            st = np.asarray(self.halos[f'npstart{AB}']).astype(np.int64)
+            n = np.asarray(self.halos[f'npout{AB}']).astype(np.int64)
+            if not (np.array_equal(st, np.asarray(npstartAB_new[AB]).astype(np.int64)[:-1]) and np.array_equal(st + n, np.asarray(npstartAB_new[AB]).astype(np.int64)[1:])):
+                CONTRACT_FAILS.append(dict(contract='_update_subsample_index_cols', AB=AB))
+        return True
+
+    C = chc.CompaSOHaloCatalog
+    C._compute_new_subsample_indices = icontract.ensure(indices_ok, error=ContractBroken)(C._compute_new_subsample_indices)
+    C._update_subsample_index_cols = icontract.ensure(cols_ok, error=ContractBroken)(C._update_subsample_index_cols)
+    chc._verif_contracts = True
+
+
+def report_contracts(run):
+    for k, v in CONTRACT_EVALS.items():
+        run.count('contract_evaluations_' + k, v)
+        CONTRACT_EVALS[k] = 0
+    for f in CONTRACT_FAILS[:5]:
+        run.violation('contract-' + f['contract'].strip('_').replace('_', '-'), f)
+    del CONTRACT_FAILS[:]
